@@ -38,14 +38,8 @@ CLAIMED = {
         text="19 theorems against an independent specification (Spec/FlowFold.v: escapes, break_text/fold_lines, presentations of plain, single- and double-quoted scalars with well-formedness, rendering and denoted text; imports nothing from the model). The GENERATED escape table of scanner.rs agrees pair by pair, in both directions, with the specification's table (an edited match arm breaks the proof on the next run); hex digits and read_hex for every digit list; \\x/\\u/\\U of every Unicode scalar value. C04_full_proved: for the scanner model over the string input, EVERY presentation the productions allow - any number of lines, folded breaks with trailing padding, empty lines, tabs after the required indentation, breaks written LF / CR / CR LF, escaped breaks, escapes, doubled quotes, block and flow context - followed by anything that may end the scalar, from any scanner state with a smaller indentation, is scanned to exactly the specified text (one break -> space, k+1 breaks -> k line feeds, blanks around a break dropped, an escaped break joins without a space): scan_plain_scalar (C04_plain_full_proved) and scan_flow_scalar (C04_quoted_full_proved). Not theorems: the buffered input (C10 transfers), tokens -> events (C02/C03/C07). Tie/oracle: target strings x independent presenters (escapes, folds, padding, LF/CR/CRLF) x 18 syntactic contexts on two back-ends, model pipeline vs implementation; regression stream for the two repaired findings (263b504, 0b5f0e0). No open known finding.",
         ref="DESIGN.md 5/C04", tech='Rocq proof (escape table agreement via generated table; hex decoding; scan_plain_scalar and scan_flow_scalar return the specified text for ALL allowed presentations) + presenter-based round-trip oracle + differential correspondence'),
     "C11": dict(
-        text="8 theorems (partial by nature: bytes of stack are not expressible in a model): the pull parser's continuation stack tracks the "
-             "number of open collections for EVERY token stream (heap, not call stack); the recursion depth of the push loader model and of "
-             "tree traversals (drop/clone/eq/hash/emit) equals the nesting depth; flow nesting is bounded by FLOW_LEVEL_MAX = 255 "
-             "(regenerated from scanner.rs) and exceeding it is an error; and machine-checked REFUTATIONS: for every bound there is an "
-             "accepted block-nested input exceeding it, so load/drop/emit recursion is unbounded (family '- '^d a, proved by induction on d). "
-             "Dynamic part: depth sweep 1..10^5 x 7 shapes x 4 APIs (+2 auxiliary), each scenario in a child process on an 8 MiB stack, "
-             "crash thresholds bisected. Known finding: unbounded block nesting aborts load/drop/emit (thresholds in known_findings_c11.jsonl).",
-        ref="DESIGN.md 5/C11", tech="Rocq proof (depth = recursion depth; flow bound; refutation of a block bound) + child-process depth sweep with bisection",
+        text="27 theorems (partial by nature: bytes of stack are not expressible in a model). HEADLINE, for EVERY text: the events of the whole model pipeline nest at most 2*(BLOCK_NESTING_MAX + 3*FLOW_LEVEL_MAX + 1) = 2042 deep - a CONSTANT built from the limits the translator reads out of scanner.rs (C11_text_nesting_bounded, also over the buffered back-end of any capacity); hence the recursion of Parser::load is bounded by 1 + that constant for every text and every accepted alias-free text loads to documents no deeper than it (C11_push_loader_recursion_bounded, C11_loaded_tree_walk_bounded). Underneath: the pull parser's continuation stack tracks the open collections for EVERY token stream (heap, not call stack); recursion depth of the push loader and of tree traversals = nesting depth; open collections <= 2 x token nesting for every token stream; scanner invariant J over every function of the scanner model: unmatched collection-start tokens (block, '[' '{', synthetic FlowMappingStart) delivered or queued <= block entries of the indent stack + flow_level + implicit pairs, each bounded by its limit (C11_scanner_token_nesting_bounded: token nesting <= 1021 for every input, any back-end, any fuel); roll_indent at the block limit and increase_flow_level at the flow limit are errors. With aliases the loaded TREE can be deeper than the events nest (C11_alias_chain_family by induction, C11_tree_depth_not_bounded_by_nesting_refuted); what holds is depth <= number of collection-start events. Dynamic part: depth sweep 1..10^6 x 11 shapes x 6 APIs, each scenario in a child process on an 8 MiB stack, debug and release; the extracted oracle checks token nesting <= 1021 and event nesting <= 2042 on the implementation's real output. Fixed: unbounded block nesting (99c201b), flow-limit bypass by bare ':' (597a354), mismatched closer (88700d3), '[ ? ]' bypass (c5ad60c): every such scenario is an error value now, an abort is a VIOLATION. Known finding (thorough tier): the alias chain '- &a0 [x] / - &a1 [*a0] / ...' (event nesting 2) loads to a tree n deep; Yaml::load_from_str + drop aborts from ~6500 (debug) / ~7700 (release) lines on, needing 4-5.6 GB of memory (quadratic).",
+        ref="DESIGN.md 5/C11", tech="Rocq proof (constant bound on event nesting for every text via a scanner-wide token-nesting invariant; recursion depth = nesting depth; refutation for alias chains) + extracted nesting oracle on the implementation + child-process depth sweep with bisection",
         note="Partial by nature: the 8 MiB limit and frame sizes are runtime facts observed by exit status only."),
     "C16": dict(
         text="42 theorems. resolve_tag = expand on the parser's table; the directive loop yields merge T (decls run) for EVERY run of directive tokens, errors exactly on a duplicate handle or repeated %YAML, never exhausts its fuel; document end clears the table iff keep_tags is false and nothing else touches it. PERCENT-DECODING, strict (repaired by 990db80): on every scanner state scan_uri_escapes equals the specification's reader - a byte sequence is accepted iff it is the UTF-8 encoding of a Unicode scalar value (shortest form, no surrogates, <= U+10FFFF) and then yields that value; errors 50-53 exactly otherwise; never out of fuel, never a panic; spec-level strictness, round trip and injectivity. TEXT LEVEL: the character classes of char_traits equal the YAML productions on every code point; every tag text scans to one Tag token with handle and decoded suffix, every %TAG line to one TagDirective token; scanner + parser composed: '%TAG !name! prefix / --- !name!suffix x' resolves to (decoded prefix, decoded suffix) for ALL such texts, any number of %TAG lines, whichever line declares the handle; a redeclared handle is an error at that line; undecodable escapes are errors at the tag. Not at text level: several documents, keep_tags carry-over, tags inside flow collections in the pipeline theorems, the buffered back-end. Tie/oracle: directive sets x tag spellings x node shapes x document sequences x keep_tags against a Python and the extracted Coq rendering of the specification; overlong-escape regression sweep; model vs implementation. No open known finding.",
